@@ -31,6 +31,22 @@ TimedTaskScheduler::~TimedTaskScheduler() {
 }
 
 void TimedTaskScheduler::kickOffTask(std::shared_ptr<detail::TimedTaskImpl> next, double curTime) {
+  // Announce the invocation before checking for cancellation and before touching func:
+  // ~TimedTask cancels, waits for inProgress to drain and only then clears func.  Both sides are
+  // seq_cst, so at least one of them sees the other.
+  struct InProgress {
+    explicit InProgress(std::shared_ptr<detail::TimedTaskImpl> t) : task(std::move(t)) {
+      task->inProgress.fetch_add(1, std::memory_order_seq_cst);
+    }
+    ~InProgress() {
+      task->inProgress.fetch_sub(1, std::memory_order_release);
+    }
+    std::shared_ptr<detail::TimedTaskImpl> task;
+  } announce(next);
+  if (next->flags.load(std::memory_order_seq_cst) & detail::kFFlagsCancelled) {
+    return;
+  }
+
   size_t remaining = next->timesToRun.fetch_sub(1, std::memory_order_acq_rel);
   if (remaining == 1) {
     auto* np = next.get();
